@@ -69,6 +69,20 @@ def afterSteps (m : OutMap) : List Done → OutMap
     (the map's entries come last in cmd.Env, so they win) -/
 def seen (m : OutMap) (name : Str') : Option Str' := (m.get name).map (restore name)
 
+/-- an environment as exec receives it: `NAME=value` entries in order; os/exec keeps the LAST entry of a name -/
+abbrev EnvList := List (Str' × Str')
+def lookupLast (e : EnvList) (k : Str') : Option Str' :=
+  e.foldl (fun acc kv => if kv.1 = k then some kv.2 else acc) none
+
+/-- executor/command.go newCommand (and sub.go): `cmd.Env = os.Environ() ++ step.Variables ++ dagContext.Envs ++
+    <every stored output>` — the captured outputs come LAST.  `proc` = the agent's own environment (parameters and
+    DAG `env:` entries exported at load, outputs exported by Execute / restored for a retry), `vars` = step.Variables
+    (DAG env entries and named parameters), `ctx` = request id and log paths. -/
+def childSees (proc vars ctx : EnvList) (m : OutMap) (k : Str') : Option Str' :=
+  match seen m k with
+  | some v => some v                               -- an output of that name is the last entry: it wins
+  | none => lookupLast (proc ++ vars ++ ctx) k
+
 end BdModel.Params
 
 namespace BdModel.Params
